@@ -239,6 +239,13 @@ def fold_tuples(expr: ast.AST) -> ast.AST:
             if isinstance(n.func, ast.Name) and n.func.id == "tuple" and len(n.args) == 1 and isinstance(n.args[0], (ast.Tuple, ast.List)):
                 return ast.Tuple(elts=n.args[0].elts, ctx=ast.Load())
             return n
+
+        def visit_Subscript(self, n):
+            self.generic_visit(n)
+            if isinstance(n.value, (ast.Tuple, ast.List)) and isinstance(n.slice, ast.Constant) and isinstance(n.slice.value, int) \
+                    and -len(n.value.elts) <= n.slice.value < len(n.value.elts) and not any(isinstance(x, ast.Starred) for x in n.value.elts):
+                return n.value.elts[n.slice.value]  # (a, b)[0] -> a
+            return n
     return T().visit(copy.deepcopy(expr))
 
 
@@ -403,3 +410,57 @@ class Origins:
                         out |= self._of(callee, cfg, t, test, max(depth, 0), False, set())
         self._ret_cache[key] = out
         return out
+
+
+def format_parts(e: ast.AST) -> Optional[List[Tuple[str, object]]]:
+    """A string-building expression as a sequence of ("lit", text) / ("expr", node) parts, whichever way it is spelled:
+    f-string, `"..%s.." % (a, b)`, `"..{}..".format(a, b)`, `a + "..." + b`.  None when it is not one of these."""
+    if isinstance(e, ast.Constant) and isinstance(e.value, str):
+        return [("lit", e.value)]
+    if isinstance(e, ast.JoinedStr):
+        out: List[Tuple[str, object]] = []
+        for v in e.values:
+            if isinstance(v, ast.Constant):
+                out.append(("lit", str(v.value)))
+            elif isinstance(v, ast.FormattedValue):
+                if v.format_spec is not None or v.conversion not in (-1, 115):
+                    return None
+                out.append(("expr", v.value))
+        return out
+    if isinstance(e, ast.BinOp) and isinstance(e.op, ast.Mod) and isinstance(e.left, ast.Constant) and isinstance(e.left.value, str):
+        args = list(e.right.elts) if isinstance(e.right, ast.Tuple) else [e.right]
+        pieces = e.left.value.split("%s")
+        if len(pieces) != len(args) + 1 or "%" in e.left.value.replace("%s", "").replace("%%", ""):
+            return None
+        out = []
+        for i, pc in enumerate(pieces):
+            if pc:
+                out.append(("lit", pc.replace("%%", "%")))
+            if i < len(args):
+                out.append(("expr", args[i]))
+        return out
+    if isinstance(e, ast.Call) and isinstance(e.func, ast.Attribute) and e.func.attr == "format" and isinstance(e.func.value, ast.Constant) \
+            and isinstance(e.func.value.value, str) and not e.keywords:
+        pieces = e.func.value.value.split("{}")
+        if len(pieces) != len(e.args) + 1 or "{" in "".join(pieces).replace("{{", "").replace("}}", ""):
+            return None
+        out = []
+        for i, pc in enumerate(pieces):
+            if pc:
+                out.append(("lit", pc.replace("{{", "{").replace("}}", "}")))
+            if i < len(e.args):
+                out.append(("expr", e.args[i]))
+        return out
+    if isinstance(e, ast.BinOp) and isinstance(e.op, ast.Add):
+        a, b = format_parts(e.left), format_parts(e.right)
+        la = a if a is not None else [("expr", e.left)]
+        lb = b if b is not None else [("expr", e.right)]
+        if a is None and b is None:
+            return None
+        return la + lb
+    return None
+
+
+def format_template(parts) -> str:
+    """The literal text of format_parts() with `{}` for each expression."""
+    return "".join(t if k == "lit" else "{}" for k, t in parts)
